@@ -19,6 +19,7 @@ import (
 	"encoding/json"
 	"fmt"
 	"math/rand"
+	"os"
 	"sort"
 	"strconv"
 	"strings"
@@ -127,6 +128,18 @@ func augDesc(a *gen.C07Aug) string {
 	return fmt.Sprintf("augment #%d %s:%d %q (module %s, shape %s, expect %s)", a.ID, a.File, a.Line, a.TargetArg, a.Module, a.Shape, a.Expect)
 }
 
+// inTree says where the target of an augment is expected (when the generator recorded it).
+func inTree(a *gen.C07Aug) string {
+	if a.TargetPath == "" || a.TargetModule == "" {
+		return ""
+	}
+	s := fmt.Sprintf(" (%s in the tree of %s", a.TargetPath, a.TargetModule)
+	if a.Origin != "" {
+		s += ", there because of: " + a.Origin
+	}
+	return s + ")"
+}
+
 // oracleOnce returns findings "once[known]: ..." / "reported[known]: ..." where known is "" or a known-finding id.
 func oracleOnce(k *know, dump []string) []string {
 	var out []string
@@ -174,8 +187,10 @@ func oracleOnce(k *know, dump []string) []string {
 		// an augment whose target exists (nothing a generated set does to a colliding node is ever a
 		// target or on the way to one) is not to be reported as not found, whatever else fails in the set
 		for _, e := range errs {
-			if a := augAt(e); a != nil && e.class == "augment-not-found" && a.Expect == gen.C07Apply {
-				add("reported", "", "%s is reported as not found although its target exists and can have children", augDesc(a))
+			if a := augAt(e); a != nil && e.class == "augment-not-found" && (a.Expect == gen.C07Apply || (a.Expect == gen.C07Collide && a.Shape == gen.C07RevSubShape)) {
+				// (a collision is a fault of its own kind, reported on the target; in the sets of
+				// gen/c07revsub.go nothing else is ever done to a node that takes part in one)
+				add("reported", "", "%s is reported as not found although its target exists%s and can have children", augDesc(a), inTree(a))
 			}
 		}
 		return out
@@ -191,6 +206,14 @@ func oracleOnce(k *know, dump []string) []string {
 				break
 			}
 			known = kn
+		}
+		if known == "" {
+			// name the statements: an augment whose target exists in the tree its path denotes is reported as not found
+			for _, e := range errs {
+				if a := augAt(e); a != nil && e.class == "augment-not-found" && a.Expect == gen.C07Apply {
+					add("reported", "", "%s is reported as not found although its target exists%s and can have children", augDesc(a), inTree(a))
+				}
+			}
 		}
 		add("reported", known, "every augment has an existing target that can have children and no names collide, but Process reports errors: %s", errStrings(errs))
 		return out
@@ -260,6 +283,8 @@ func oracleOnce(k *know, dump []string) []string {
 			want[key{w.Mod, w.Path}] = w
 			got, ok := have[key{w.Mod, w.Path}]
 			switch {
+			case w.Opt:
+				// present or absent, not judged (gen/c07revsub.go: submodule nodes in an older revision, D63)
 			case !ok:
 				add("once", excuse(w.Mod, w.Path), "expected node %s %s is missing", w.Mod, w.Path)
 			case !w.AnyNS && got.ns != w.NS:
@@ -619,6 +644,14 @@ func caseOf(s *gen.C07Set, seed int64, maxVariants int) rescorr.Case {
 	}
 	b, _ := json.Marshal(k)
 	return rescorr.Case{Names: names, Texts: texts, Extra: map[string]string{"c07": string(b)}}
+}
+
+// caseOfRevSub: a set of the family "revisions of a module that include the same submodule(s)".
+func caseOfRevSub(s *gen.C07RevSubSet, seed int64, maxVariants int) rescorr.Case {
+	k := know{Shape: gen.C07RevSubShape + ":" + s.Layout, Augs: s.Augs, Blocks: s.AugBlocks, ExpectClean: s.ExpectClean, Forest: s.Forest,
+		NSMod: s.NSMod, Seed: seed, MaxVariants: maxVariants}
+	b, _ := json.Marshal(k)
+	return rescorr.Case{Names: s.Names, Texts: s.Texts, Extra: map[string]string{"c07": string(b)}}
 }
 
 // pathCase is the files-on-disk variant of a generated case (rescorr.FromPath): only the roots are
@@ -1143,6 +1176,48 @@ func corpus(seed int64) []rescorr.Case {
 		hdr("b", "a") + "  augment \"/pa:c/pa:output\" { leaf b1 { type string; } }\n" +
 			"  augment \"/pa:c\" { container input { leaf b2 { type string; } } }\n}\n"},
 		cAug{expect: gen.C07NoChildren}, cAug{expect: gen.C07Collide})
+	// revisions of one module loaded together that include the SAME submodule: the latest revision (the
+	// one a plain import, an import with its date, and the submodule's own paths denote) holds the
+	// submodule's nodes, so augments aimed at them, below them, at what another augment made there, and
+	// augments the submodule writes itself are applied exactly once in every load order. The submodule's
+	// nodes in the older revision are not judged (D63).
+	snm := map[string]string{"urn:t": "t", "urn:b": "b", "urn:c": "c"}
+	tRev := func(date string) string {
+		return "module t {\n  namespace \"urn:t\";\n  prefix t;\n  include ts;\n  revision " + date + ";\n  container own {\n    leaf o { type string; }\n  }\n}\n"
+	}
+	tSub := func(augs string) string {
+		return "submodule ts {\n  belongs-to t { prefix t; }\n  import b { prefix b; }\n  container top {\n    leaf l { type string; }\n    container in;\n  }\n" + augs + "}\n"
+	}
+	opt := func(mod, path string) gen.C07Node { return gen.C07Node{Mod: mod, Path: path, NS: "urn:t", Opt: true} }
+	out = append(out, corpusCase("revisions-sharing-a-submodule", []string{"t@2019-01-01.yang", "t@2020-01-01.yang", "ts.yang", "b.yang", "c.yang"}, []string{
+		tRev("2019-01-01"), tRev("2020-01-01"),
+		tSub("  augment \"/t:own\" { leaf fromsub { type string; } }\n  augment \"/t:top/b:x\" { leaf fromsub2 { type string; } }\n"),
+		"module b {\n  namespace \"urn:b\";\n  prefix b;\n  import t { prefix t; }\n" +
+			"  augment \"/t:top\" { container x { leaf y { type string; } } }\n}\n",
+		"module c {\n  namespace \"urn:c\";\n  prefix c;\n  import t { prefix t; revision-date 2020-01-01; }\n  import t { prefix told; revision-date 2019-01-01; }\n  import b { prefix b; }\n" +
+			"  augment \"/t:top/t:in\" { leaf fromc { type string; } }\n" +
+			"  augment \"/t:top/b:x\" { container chained { leaf z { type string; } } }\n" +
+			"  augment \"/told:own\" { leaf intoold { type string; } }\n}\n"},
+		snm, []cAug{ap(nd("t@2020-01-01", "/t/own/fromsub", "urn:t")), ap(nd("t@2020-01-01", "/t/top/x/fromsub2", "urn:t")),
+			ap(nd("t@2020-01-01", "/t/top/x", "urn:b")), ap(nd("t@2020-01-01", "/t/top/in/fromc", "urn:c")),
+			ap(nd("t@2020-01-01", "/t/top/x/chained", "urn:c")), ap(nd("t@2019-01-01", "/t/own/intoold", "urn:c"))},
+		[]gen.C07Node{nd("t@2019-01-01", "/t", "urn:t"), nd("t@2019-01-01", "/t/own", "urn:t"), nd("t@2019-01-01", "/t/own/o", "urn:t"),
+			nd("t@2019-01-01", "/t/own/intoold", "urn:c"),
+			opt("t@2019-01-01", "/t/top"), opt("t@2019-01-01", "/t/top/l"), opt("t@2019-01-01", "/t/top/in"),
+			nd("t@2020-01-01", "/t", "urn:t"), nd("t@2020-01-01", "/t/own", "urn:t"), nd("t@2020-01-01", "/t/own/o", "urn:t"),
+			nd("t@2020-01-01", "/t/own/fromsub", "urn:t"), nd("t@2020-01-01", "/t/top", "urn:t"), nd("t@2020-01-01", "/t/top/l", "urn:t"),
+			nd("t@2020-01-01", "/t/top/in", "urn:t"), nd("t@2020-01-01", "/t/top/in/fromc", "urn:c"),
+			nd("t@2020-01-01", "/t/top/x", "urn:b"), nd("t@2020-01-01", "/t/top/x/y", "urn:b"), nd("t@2020-01-01", "/t/top/x/fromsub2", "urn:t"),
+			nd("t@2020-01-01", "/t/top/x/chained", "urn:c"), nd("t@2020-01-01", "/t/top/x/chained/z", "urn:c"),
+			nd("b", "/b", "urn:b"), nd("c", "/c", "urn:c")},
+		seed+int64(len(out))))
+	out = append(out, corpusCase("revisions-sharing-a-submodule-missing-beside-applying", []string{"t@2019-01-01.yang", "t@2020-01-01.yang", "t@2021-06-01.yang", "ts.yang", "b.yang"}, []string{
+		tRev("2019-01-01"), tRev("2020-01-01"), tRev("2021-06-01"), tSub(""),
+		"module b {\n  namespace \"urn:b\";\n  prefix b;\n  import t { prefix t; }\n" +
+			"  augment \"/t:top/t:nosuch\" { leaf x1 { type string; } }\n" +
+			"  augment \"/t:top/t:l\" { leaf x2 { type string; } }\n" +
+			"  augment \"/t:top\" { leaf ok { type string; } }\n}\n"},
+		snm, []cAug{{expect: gen.C07MissingT}, {expect: gen.C07NoChildren}, ap(nd("t@2021-06-01", "/t/top/ok", "urn:b"))}, nil, seed+int64(len(out))))
 	// chains of augments that only become applicable after FixChoice (gen.LeftoverChains: every link's
 	// target lies below the implied case of a short-hand choice member, 2-3 links across modules, every
 	// assignment of module names to the links, links that add short-hand choice members of their own,
@@ -1251,10 +1326,20 @@ func main() {
 	if f.Thorough() {
 		n = 120000
 	}
+	if os.Getenv("C07_ONLY") == "revsub" {
+		n = 1 // debugging aid: the corpus, one ordinary set and the revisions-sharing-a-submodule family
+	}
 	const batch = 4000
+	revSubPerBatch := 256
+	if f.Thorough() {
+		revSubPerBatch = 270
+	}
+	if v, err := strconv.Atoi(os.Getenv("C07_REVSUB_N")); err == nil && v >= 0 {
+		revSubPerBatch = v // debugging aid (timing with and without the family)
+	}
 	distinct := lib.NewDistinct()
 	all := lib.NewDistinct()
-	var clean, withErr, outside, skipped, outsideClaim, variantsRun, expClean, expErr, exhaustive, total, childlessSets, childlessSets2, sharedOnlySets, oldRevSets, multiRevSets, pathCases, pathImplicit, pathPartial, noModel, devErrSets, devCtlSets, historyRun, historyBase, clashSets, ioSets, ioTarget, ioThrough int64
+	var clean, withErr, outside, skipped, outsideClaim, variantsRun, expClean, expErr, exhaustive, total, childlessSets, childlessSets2, sharedOnlySets, oldRevSets, multiRevSets, pathCases, pathImplicit, pathPartial, noModel, devErrSets, devCtlSets, historyRun, historyBase, clashSets, ioSets, ioTarget, ioThrough, revSubSets, revSubInSub, revSubChained int64
 	shapeCount := map[string]int64{}
 	expectCount := map[string]int64{}
 	originCount := map[string]int64{}
@@ -1279,6 +1364,16 @@ func main() {
 				if pc, ok := pathCase(c, set, f.Rand(n+i)); ok {
 					cases = append(cases, pc)
 				}
+			}
+		}
+		// the family "revisions of a module that include the same submodule(s)" (gen/c07revsub.go): a
+		// share of every batch, each set also with the newest revisions arriving after a first Process
+		for jj := 0; jj < revSubPerBatch; jj++ {
+			j := lo/batch*revSubPerBatch + jj
+			c := caseOfRevSub(gen.C07RevSub(f.Rand(4*n+j), j), f.Seed*1000003+int64(4*n+j), 24)
+			cases = append(cases, c)
+			if hc, ok := historyCase(c); ok && jj%2 == 0 {
+				cases = append(cases, hc)
 			}
 		}
 		total += int64(len(cases))
@@ -1327,6 +1422,19 @@ func main() {
 			}
 			if k.IONamed {
 				ioSets++
+			}
+			if strings.HasPrefix(k.Shape, gen.C07RevSubShape) {
+				revSubSets++
+				for _, a := range k.Augs {
+					if a.Expect == gen.C07Apply && strings.Contains(a.TargetModule, "@") {
+						switch a.Origin {
+						case "submodule":
+							revSubInSub++
+						case "augment":
+							revSubChained++
+						}
+					}
+				}
 			}
 			for _, a := range k.Augs {
 				switch a.IOName {
@@ -1552,6 +1660,9 @@ func main() {
 	res.Distribution["sets_with_an_ordinary_node_named_input_or_output"] = ioSets
 	res.Distribution["augments_targeting_an_ordinary_node_named_input_or_output"] = ioTarget
 	res.Distribution["augments_passing_through_an_ordinary_node_named_input_or_output"] = ioThrough
+	res.Distribution["sets_with_revisions_of_a_module_that_include_the_same_submodule"] = revSubSets
+	res.Distribution["there:applying_augments_whose_target_a_shared_submodule_defines(or lies below such a node)"] = revSubInSub
+	res.Distribution["there:applying_augments_whose_target_another_augment_made_in_a_revision_tree"] = revSubChained
 	res.Distribution["outside_model"] = outside
 	res.Distribution["go_parse_rejected"] = skipped
 	res.Distribution["outside_claim(implicit case as target)"] = outsideClaim
